@@ -2,7 +2,13 @@
 import re
 from fractions import Fraction
 
-_TRAIL0 = re.compile(r'(\d)\.0(?!\d)')
+
+
+_LONGNUM = re.compile(r'\d+\.\d{12,}(?:e[-+]?\d+)?')
+
+
+def _g15(m):
+    return repr(float(format(float(m.group(0)), '.15g')))
 
 
 def _as_num(a):
@@ -50,10 +56,12 @@ def agrees(obs, exp, rel=1e-9):
             return False
         if obs['v'] == exp['v']:
             return True
-        # the spelling of integral doubles as text ("2.0" for 2) is left open
+        # a non-integral double spelt with 16-17 significant digits ("0.28090000000000004"):
+        # Excel's text form has 15; no property fixes number formatting, so both spellings agree
         so = ''.join(map(chr, obs['v']))
-        se = ''.join(map(chr, exp['v']))
-        return _TRAIL0.sub(r'\1', so) == se
+        if _LONGNUM.search(so):
+            return _LONGNUM.sub(_g15, so) == ''.join(map(chr, exp['v']))
+        return False
     if te == 'bool':
         return to == 'bool' and obs['v'] == exp['v']
     if te == 'blank':
